@@ -4,7 +4,11 @@
 //  (a) direct injection: a chain of 1..3 queues, each sandwiched between taps,
 //      fed by the harness with aux::packets at scripted instants
 //        q <bw B/s> <lat us> <cap B>
-//        pkt <mode> <gap ns> <type> <size> <overhead> <hasdrop>
+//        pkt <mode> <gap ns> <type> <size> <overhead> <hasdrop> [<reply size> <reply hop>]
+//      reply size > 0: when this packet reaches the end of the chain the terminal
+//      sink answers at once, from inside the last queue's forwarding call, with a
+//      payload packet of that size entering the chain at the given hop (a packet
+//      arriving at a queue while that queue is handing another one on)
 //      mode 0: gap after the previous injection; mode 1: at the instant the
 //      previously injected packet is predicted to leave hop 0 (arrival
 //      coinciding with a departure)
@@ -25,7 +29,15 @@ struct NullSink : sim::sink
 	std::string label() const override { return "null"; }
 };
 
-struct Inj { long long t; int type; int size; int ovh; bool hasdrop; int id; };
+struct ReactSink : sim::sink
+{
+	long long n = 0;
+	std::function<void(sim::aux::packet const&)> on;
+	void incoming_packet(sim::aux::packet p) override { ++n; if (on) on(p); }
+	std::string label() const override { return "react"; }
+};
+
+struct Inj { long long t; int type; int size; int ovh; bool hasdrop; int id; int react = 0; int react_hop = 0; };
 
 struct DropRec { int calls = 0; long long t = -1; bool intact = true; };
 
@@ -52,6 +64,7 @@ Verdict run_direct(Case const& c, Ctx& ctx, int which)
 		else t += gap;
 		if (t > 4000000000000LL) continue;
 		Inj i{t, int(type), int(size), int(ovh), r->a[5] != 0, int(inj.size())};
+		if (r->a.size() >= 8 && r->a[6] > 0 && r->a[6] <= 65535) { i.react = int(r->a[6]); i.react_hop = int(((r->a[7] % 3) + 3) % 3); }
 		inj.push_back(i);
 		long long lo, hi; ser_bounds(size + ovh, qs[0].bw, lo, hi);
 		pred_dep = std::max(pred_dep, t + qs[0].lat_us * 1000) + (qs[0].bw ? lo + 1 : 0);
@@ -63,49 +76,67 @@ Verdict run_direct(Case const& c, Ctx& ctx, int which)
 	World w(topo);
 	sim::route chain;
 	for (std::size_t i = 0; i < qs.size(); ++i) w.append_queue(chain, qs[i], 1, 0, 0, 0, int(i));
-	auto term = std::make_shared<NullSink>();
+	auto term = std::make_shared<ReactSink>();
 	chain.append(term);
+	std::vector<sim::route> from_hop;
+	for (std::size_t i = 0; i < qs.size(); ++i) { sim::route r = chain; for (std::size_t j = 0; j < 3 * i; ++j) r.pop_front(); from_hop.push_back(r); }
 
-	std::vector<DropRec> drops(inj.size());
+	// replies get the ids after the scripted packets
+	std::size_t const n_scripted = inj.size();
+	std::vector<DropRec> drops(2 * inj.size());
+	auto make_packet = [&w, &drops](Inj const& i, sim::route const& hops) {
+		sim::aux::packet p;
+		p.type = static_cast<sim::aux::packet::type_t>(i.type);
+		fill_payload(p.buffer, 77, std::uint64_t(i.id) * 70000, std::size_t(i.size));
+		p.overhead = i.ovh;
+		p.seq_nr = std::uint64_t(i.id);
+		p.from = udp::endpoint(w.addr(0), 4000);
+		p.hops = hops;
+		if (i.hasdrop)
+		{
+			std::uint64_t const h = fnv1a(p.buffer.data(), p.buffer.size());
+			DropRec* dr = &drops[std::size_t(i.id)];
+			int const id = i.id, size = i.size, type = i.type;
+			p.drop_fun = [dr, h, id, size, type](sim::aux::packet pk) {
+				++dr->calls; dr->t = now_ns();
+				dr->intact = int(pk.buffer.size()) == size && fnv1a(pk.buffer.data(), pk.buffer.size()) == h
+					&& pk.seq_nr == std::uint64_t(id) && int(pk.type) == type;
+			};
+		}
+		return p;
+	};
+	bool reentered = false;
+	term->on = [&](sim::aux::packet const& got) {
+		if (got.seq_nr >= n_scripted) return; // replies are not answered
+		Inj const cause = inj[std::size_t(got.seq_nr)];
+		if (cause.react <= 0 || inj.size() >= 2 * n_scripted) return;
+		Inj rep{now_ns(), int(sim::aux::packet::type_t::payload), cause.react, 40, true, int(inj.size())};
+		inj.push_back(rep);
+		reentered = true;
+		sim::forward_packet(make_packet(rep, from_hop[std::size_t(cause.react_hop) % from_hop.size()]));
+	};
+	inj.reserve(2 * inj.size() + 1);
 	{
 		sa::high_resolution_timer driver(w.sim().get_io_context());
 		std::size_t next = 0;
 		std::function<void(boost::system::error_code const&)> fire;
 		auto arm = [&]() {
-			if (next >= inj.size()) return;
+			if (next >= n_scripted) return;
 			driver.expires_at(sclock::time_point(ns(inj[next].t)));
 			driver.async_wait([&](boost::system::error_code const& ec) { fire(ec); });
 		};
 		fire = [&](boost::system::error_code const& ec) {
 			if (ec) return;
 			long long const nowt = now_ns();
-			while (next < inj.size() && inj[next].t <= nowt)
+			while (next < n_scripted && inj[next].t <= nowt)
 			{
-				Inj const& i = inj[next++];
-				sim::aux::packet p;
-				p.type = static_cast<sim::aux::packet::type_t>(i.type);
-				fill_payload(p.buffer, 77, std::uint64_t(i.id) * 70000, std::size_t(i.size));
-				p.overhead = i.ovh;
-				p.seq_nr = std::uint64_t(i.id);
-				p.from = udp::endpoint(w.addr(0), 4000);
-				p.hops = chain;
-				if (i.hasdrop)
-				{
-					std::uint64_t const h = fnv1a(p.buffer.data(), p.buffer.size());
-					DropRec* dr = &drops[std::size_t(i.id)];
-					int const id = i.id, size = i.size, type = i.type;
-					p.drop_fun = [dr, h, id, size, type](sim::aux::packet pk) {
-						++dr->calls; dr->t = now_ns();
-						dr->intact = int(pk.buffer.size()) == size && fnv1a(pk.buffer.data(), pk.buffer.size()) == h
-							&& pk.seq_nr == std::uint64_t(id) && int(pk.type) == type;
-					};
-				}
-				sim::forward_packet(std::move(p));
+				Inj const i = inj[next++];
+				sim::forward_packet(make_packet(i, chain));
 			}
 			arm();
 		};
 		arm();
-		Budget b(200000 + 40 * (long long)inj.size());
+		Budget b(200000 + 80 * (long long)inj.size());
 		bool const done = run_budgeted(w.sim(), b);
 		driver.cancel();
 		if (!done) { Verdict v; v.inconclusive = true; return v; }
@@ -121,6 +152,8 @@ Verdict run_direct(Case const& c, Ctx& ctx, int which)
 	if (st.drops) ctx.label("has_drop");
 	if (st.undroppable_over_cap) ctx.label("undroppable_over_cap");
 	if (st.max_arrivals_one_queue >= 500) ctx.label("long_history_500");
+	if (reentered) ctx.label("arrival_during_forward");
+	term->on = nullptr;
 	if (which == 9) v.nontrivial = st.waited && st.not_waited && st.overhead_nonzero;
 	else v.nontrivial = st.drop_and_accept_droppable && st.undroppable_over_cap;
 	if (!err.empty()) { Verdict f = Verdict::fail(which == 9 ? "fifo_link" : "tail_drop", err); f.nontrivial = v.nontrivial; return f; }
@@ -340,11 +373,32 @@ rc::Gen<Rec> gen_pkt(bool drops)
 	auto type = drops ? kit::weighted({{1, 1}, {1, 2}, {2, 3}, {1, 4}, {5, 5}}) : kit::weighted({{1, 1}, {1, 2}, {1, 3}, {1, 4}, {6, 5}});
 	auto size = rc::gen::oneOf(kit::weighted({{1, 0}, {2, 1}, {2, 100}, {2, 500}, {2, 1475}, {1, 9000}, {1, 65535}}), kit::range(0, 2000), kit::range(0, 65535));
 	auto ovh = kit::weighted({{1, 0}, {2, 20}, {3, 28}, {3, 40}, {1, 60}});
-	return rc::gen::map(rc::gen::tuple(kit::weighted({{5, 0}, {1, 1}}), gap, type, size, ovh, kit::weighted({{1, 0}, {2, 1}})),
-		[](std::tuple<long long, long long, long long, long long, long long, long long> t) {
+	auto react = rc::gen::oneOf(rc::gen::just(0LL), rc::gen::just(0LL), rc::gen::just(0LL), kit::weighted({{1, 1}, {1, 60}, {1, 360}, {1, 960}, {1, 1475}}), kit::range(1, 3000));
+	return rc::gen::map(rc::gen::tuple(kit::weighted({{5, 0}, {1, 1}}), gap, type, size, ovh, kit::weighted({{1, 0}, {2, 1}}), react, kit::range(0, 2)),
+		[](std::tuple<long long, long long, long long, long long, long long, long long, long long, long long> t) {
 			Rec r; r.name = "pkt";
-			r.a = {std::get<0>(t), std::get<1>(t), std::get<2>(t), std::get<3>(t), std::get<4>(t), std::get<5>(t)};
+			r.a = {std::get<0>(t), std::get<1>(t), std::get<2>(t), std::get<3>(t), std::get<4>(t), std::get<5>(t), std::get<6>(t), std::get<7>(t)};
 			return r;
+		});
+}
+
+// request/reply through one finite queue: every packet is answered, from inside the queue's forwarding call, by a
+// payload packet whose size is chosen around "fits only if the packet being handed on no longer counts as held"
+rc::Gen<Case> gen_pingpong()
+{
+	auto one = rc::gen::map(rc::gen::tuple(kit::weighted({{1, 0}, {1, 1000}, {2, 2000000}, {1, 40000000}}), kit::weighted({{1, 3}, {1, 1}, {4, 5}}), kit::range(0, 1500), kit::range(-80, 80), kit::range(0, 1)),
+		[](std::tuple<long long, long long, long long, long long, long long> t) { Rec r; r.name = "pkt"; r.a = {0, std::get<0>(t), std::get<1>(t), std::get<2>(t), 20, 1, std::get<3>(t), std::get<4>(t)}; return r; });
+	return rc::gen::map(rc::gen::tuple(kit::weighted({{1, 0}, {1, 100000}, {1, 1000000}}), kit::weighted({{1, 0}, {1, 500}, {1, 20000}}), kit::weighted({{1, 200}, {2, 600}, {2, 1500}, {1, 4000}}), kit::range(0, 1), rc::gen::container<std::vector<Rec>>(one)),
+		[](std::tuple<long long, long long, long long, long long, std::vector<Rec>> t) {
+			Case c;
+			long long const cap = std::get<2>(t);
+			Rec q; q.name = "q"; q.a = {std::get<0>(t), std::get<1>(t), cap}; c.recs.push_back(q);
+			if (std::get<3>(t)) { Rec q2; q2.name = "q"; q2.a = {0, 100, cap}; c.recs.push_back(q2); }
+			auto& v = std::get<4>(t);
+			if (v.size() > 40) v.resize(40);
+			// reply size: the capacity minus the reply's overhead (40), minus what is still held, give or take
+			for (auto& r : v) { long long const sz = cap - 40 + r.a[6] - ((r.a[6] & 1) ? (r.a[3] + 20) / 2 : 0); r.a[6] = std::max(1LL, std::min(65535LL, sz)); c.recs.push_back(r); }
+			return c;
 		});
 }
 
@@ -459,6 +513,7 @@ void campaign(Ctx& ctx)
 	int const n = thorough ? 120000 : 2500;
 	ctx.rc_campaign("direct injection (short)", gen_direct(c10, 12), n, 40, 1);
 	ctx.rc_campaign("direct injection (long)", gen_direct(c10, 200), n / 3, 200, 2);
+	ctx.rc_campaign("reply during forward", gen_pingpong(), thorough ? 40000 : 1200, 60, 5);
 	ctx.rc_campaign("sustained overload", gen_overload(c10), thorough ? 600 : 12, 100, 3);
 	ctx.rc_campaign("end to end", gen_e2e(c10), thorough ? 8000 : 150, 60, 4);
 }
